@@ -76,10 +76,12 @@ static void never_twice() {
 static void finish(ThreadPool* pool) {
   never_twice();
   delete pool;  // real ~ThreadPool: stop, wakeAll, drain central queue, join (model), drain rings and steal rings
-  for (int i = 0; i < kMaxIds; ++i) {
-    vf_check(g_runs[i] == (i < g_submitted ? 1 : 0),
-             "a functor handed to the pool did not run exactly once by the time ~ThreadPool returned");
-  }
+  // written without a loop (no unwinding bound involved); one obligation per id
+#define ONCE_AT_END(i)                                   \
+  vf_check(g_runs[i] == ((i) < g_submitted ? 1 : 0),     \
+           "a functor handed to the pool did not run exactly once by the time ~ThreadPool returned");
+  ONCE_AT_END(0) ONCE_AT_END(1) ONCE_AT_END(2) ONCE_AT_END(3) ONCE_AT_END(4) ONCE_AT_END(5)
+#undef ONCE_AT_END
 }
 
 // fork-join ring fast path: count tasks, task i to ring i (thread_pool.h scheduleBulkToRings); either called as
